@@ -99,7 +99,15 @@ def norm(msg):
     return msg[:90]
 
 
-TYPE_WORDS = re.compile(r"\\b(int|u8|float|bool|string|void|array|struct|enum|union|function|list_int|list_string|HashMap|unknown|tuple|opaque)\\b")
+TYPE_WORDS = re.compile(r"\b(int|u8|float|bool|string|void|array|struct|enum|union|function|list_int|list_string|HashMap|unknown|tuple|opaque)\b")
+
+
+def diag_msg(msg):
+    msg = norm(msg)
+    msg = re.sub(r"\([^)]*\)", "", msg)
+    msg = re.sub(r"\([^)]*$", "", msg)
+    msg = TYPE_WORDS.sub("T", msg)
+    return re.sub(r"\s+", " ", msg).strip()[:70]
 
 
 def diag_titles(text):
@@ -110,11 +118,9 @@ def diag_titles(text):
     for m in TITLE_RE.finditer(text):
         rest = text[m.end():].split("\n")
         msg = rest[1].strip() if len(rest) > 1 else ""
-        msg = TYPE_WORDS.sub("T", re.sub(r"\(.*$", "", norm(msg))).strip()
-        found.append((m.start(), "%s: %s" % (m.group(1).strip(), msg[:70])))
+        found.append((m.start(), "%s: %s" % (m.group(1).strip(), diag_msg(msg))))
     for m in ERRLINE_RE.finditer(text):
-        msg = TYPE_WORDS.sub("T", re.sub(r"\(.*$", "", norm(m.group(1)))).strip()
-        found.append((m.start(), "E: " + msg[:70]))
+        found.append((m.start(), "E: " + diag_msg(m.group(1))))
     out = []
     for _, t in sorted(found):
         if t not in out:
